@@ -94,7 +94,7 @@ def check(repo: Repo, run: Run) -> None:
            f"handlers around the host call: function_eval {sf}; method_eval {sm}", ev.loc(me))
     for label, fn in (("function_eval", fe), ("method_eval", me)):
         s = ast.unparse(fn)
-        run.ob("C14.F1", f"{label}|lookup", "self.activation.resolve_function(" in s, f"{label} resolves the name through Activation.resolve_function", ev.loc(fn))
+        run.shape("C14.F1", f"{label}|lookup", "self.activation.resolve_function(" in s, f"{label} resolves the name through Activation.resolve_function", ev.loc(fn))
         # KeyError of the lookup -> error value
         ok = False
         for n in ast.walk(fn):
@@ -125,7 +125,7 @@ def check(repo: Repo, run: Run) -> None:
     run.floor("C14.F2", n2, 4)
     init = ev.func("Activation.__init__")
     s = ast.unparse(init)
-    run.ob("C14.F2", "Activation.__init__|list form", "f.__name__: f for f in functions" in s, "a list of callables is keyed by each callable's __name__", ev.loc(init))
+    run.shape("C14.F2", "Activation.__init__|list form", "f.__name__: f for f in functions" in s, "a list of callables is keyed by each callable's __name__", ev.loc(init))
     # base_functions never written
     writes = []
     for m in ("evaluation", "celpy", "c7nlib", "main"):
